@@ -1,8 +1,6 @@
 SPECIFICATION TSpec
 CONSTANTS
-  Sigma = {1, 2, 3}
-  MaxP = 5
-  MaxT = 12
   KmpBug = ""
+  Deviations = {}
 POSTCONDITION TraceAccepted
 CHECK_DEADLOCK FALSE
